@@ -1229,6 +1229,17 @@ func (g *gen) converge(i int, seed uint64) *scenario {
 		setup = append(setup, op)
 	}
 	sc.Setup = setup
+	if sc.Warmup && !sc.Ctl.GenSelector && len(sc.Hook.Children) > 0 && r.Chance(1, 6) {
+		// a desired child that nobody controls any more and that names the parent as a plain owner (somebody
+		// stripped the controller flag): adoption makes that very reference the controller reference
+		pr := sc.parentRef()
+		for _, ref := range sc.childRefs() {
+			ref.Op, ref.Data = "plainowner", J{"apiVersion": pr.APIVersion, "kind": pr.Kind, "namespace": pr.Namespace, "name": pr.Name, "orphan": true}
+			sc.Setup = append(sc.Setup, ref)
+			break
+		}
+		feats = append(feats, "orphan-lists-parent-as-plain-owner")
+	}
 	for _, c := range sc.Hook.Children {
 		delete(c["metadata"].(J)["labels"].(J), "controller-uid") // a hook answer the controller accepts
 	}
@@ -1311,10 +1322,23 @@ func (g *gen) converge(i int, seed uint64) *scenario {
 		unmatch = true
 		sc.Features = append(sc.Features, "parent-unmatched-then-finalized")
 	}
+	vanish := !replaced && !unmatch && len(sc.Hook.Children) > 0 && sc.Hook.Kind != "ordered" && (r.Chance(1, 5) || (sc.Ctl.SSA && r.Bool()))
+	if vanish {
+		// once converged, a child is deleted by somebody else: the desired state has not changed, the child is made again
+		sc.Features = append(sc.Features, "child-deleted-behind-the-controllers-back")
+	}
 	sc.Rounds = nil
 	n := 6 + 2*len(sc.Hook.Children)
 	for j := 0; j < n; j++ {
 		rs := roundSpec{PreOps: healthy}
+		if vanish && j == 3 {
+			for _, ref := range sc.childRefs() {
+				d := ref
+				d.Op = "delete"
+				rs.PreOps = append(append([]extOp{}, rs.PreOps...), d)
+				break
+			}
+		}
 		if replaced && j == 3 {
 			for _, ref := range sc.childRefs() {
 				d := ref
